@@ -2,12 +2,58 @@
 import drivers.c17  # noqa: F401   (registers the drivers)
 
 PROP = "C17"
-LEVEL = "exploration"
-LEVEL_TEXT = "tbd"
-LEVEL_NOTE = "tbd"
+LEVEL = "exploration"          # until the E1 (SMT) part is added by the main session; do not claim more
+LEVEL_TEXT = ("Bounded run-time contracts only: every public solver of quimb.linalg (partial and full eigensolvers with all "
+              "convenience wrappers, relative windows, svd / svds, norms, expm / expm_multiply / sqrtm, autoblock, rsvd / "
+              "estimate_rank, the stochastic spectral-function estimators) is run on matrices built from a PRESCRIBED spectrum "
+              "(so the correct selection is known without any solver) for sizes on both sides of the backend auto-selection "
+              "thresholds, all available backends (numpy, scipy, lobpcg, AUTO; slepc / primme absent), dense / sparse / "
+              "LinearOperator / Lazy inputs, and checked for: values == requested selection, documented order, residual, "
+              "orthonormality, defining equations. Nothing is proved beyond the stated sizes and spectra.")
+LEVEL_NOTE = ("Trusted: numpy.linalg (qr, eigh, eigvalsh, svd), scipy.linalg.expm as second reference; tolerances per solver "
+              "family (dense 1e-9, ARPACK 1e-7, lobpcg 2e-3; stochastic estimators 10 %); the selection boundary is kept "
+              "separated (>= max(0.05, 0.04 R) for a spectrum in [-R, R]); 5 input classes on which the unchanged library "
+              "crashes or returns a different part of the spectrum are recorded as known findings C17-a..e.")
 TECHNIQUE = "run-time contracts on the real functions vs independent numpy references over a stated bounded domain (bounded stand-in)"
-E1 = []
+E1 = []                        # filled later by the main session
 PROVIDERS = []
-TRUSTED = ["numpy / scipy.linalg reference computations"]
-ASSUMPTIONS = []
-EXPLANATION = "tbd"
+TRUSTED = [
+    "numpy.linalg.qr / eigh / eigvalsh / eigvals / svd and scipy.linalg.expm used to build and cross-check references",
+    "the construction A = Q diag(lam) Q^+ (Q unitary) resp. S diag(lam) S^-1 (cond(S) ~ 2) reproduces the prescribed "
+    "spectrum to ~1e-14",
+    "scipy's ARPACK / LOBPCG / interpolative routines are leaf solvers: their convergence on well separated spectra is "
+    "trusted, their selection / ordering as used by quimb is what is checked",
+]
+ASSUMPTIONS = [
+    "sizes d in {6,20,44,45,63,64,99,100,141,142} (thresholds d^2/k = 2000 without and 10000 with a target), k in {1,2,5}; "
+    "spectra uniform in [-R, R] (squares for complex spectra), R = max(3, d/15); boundary of the selection separated by "
+    ">= max(0.05, 0.04 R); exact degeneracies only strictly inside or outside the selection",
+    "which='SM' is only exercised on the dense backend (ARPACK's SM mode without shift-invert does not converge reliably -- "
+    "scipy documents this); LinearOperator inputs with a target only for d <= 20 and never for generalized problems (inner "
+    "iterative solves take seconds / do not converge); lobpcg only for SA / LA on spectra with well separated extremal "
+    "levels (default 30 iterations), tolerance 2e-3 on values, 5e-2 on residuals",
+    "selection rules are read as documented in numpy_linalg.sort_inds: TR / TM / TI = real part / magnitude / imaginary part "
+    "nearest the target; SA / LA are not used for non-Hermitian problems (undefined order; scipy rejects them)",
+    "sort=True means ascending (numpy's lexicographic order for complex values); sort=False is only checked on the dense "
+    "backend (order of the selection rule)",
+    "combinations believed unsupported are 'rejected or right': numpy backend with a LinearOperator, lobpcg with a target or "
+    "other rules, full dense decomposition / trace norm / sqrtm of sparse input, non-Hermitian autoblock",
+    "eigh_window family: the returned values must be true eigenvalues inside the open relative window, contain the "
+    "min(k, #inside) nearest to the centre, be ascending, with small residual -- the dense route returns all levels in the "
+    "window, the iterative route at most k; both satisfy this",
+    "estimate_rank: with use_sli (default for double precision) the answer comes from scipy.linalg.interpolative, which in "
+    "the installed scipy returns min(shape) for exactly low-rank input -- only 'never under-estimates' is required there; "
+    "quimb's own estimator must lie in [r, r+2] (it counts one value below the threshold by design)",
+    "stochastic estimators: fixed seeds, tol=1e-2, accepted within 10 %; exactness is checked where the algorithm is exact "
+    "(full Krylov space from a given start vector; multiples of the identity)",
+]
+EXPLANATION = (
+    "E3 (bounded): 7 drivers. partial-hermitian / partial-general / generalized: eigensystem_partial and eigh / eigvalsh / "
+    "eigvecsh / eig / eigvals / eigvecs with k over backends x representations x rules x targets x sizes across the "
+    "auto-selection thresholds: values == the exact selection from the prescribed spectrum, order, residual, (B-)"
+    "orthonormality (a separate contract). full-and-wrappers: full decompositions with sort both ways, groundstate / "
+    "groundenergy / bound_spectrum, the three window functions. svd-norm-matfun: svd, svds (k largest triplets, "
+    "descending, A v = s u), every norm alias, expm / expm_multiply against the exponential known from the construction, "
+    "sqrtm defining equation and branch. autoblock: hidden block structure (dense, chain, star, tree blocks, kernel rows) vs "
+    "direct dense computation. rand-approx: rsvd in every mode on exactly low-rank matrices, estimate_rank, exact and "
+    "statistical cases of approx_spectral_function and the subsystem estimators.")
